@@ -27,16 +27,19 @@ log = {}
 sh("git checkout -- . && git clean -fdq -- '*/tests/seed_demo_*'")
 sh("git checkout -q --detach $(git -C /repo rev-parse HEAD)")   # validate against the current /repo HEAD
 shutil.copy(os.path.join(sd, "demo.rs"), tpath)
-rc, out = sh(f"cargo test --offline -p {crate} --test {tname} 2>&1 | tail -15")
+feat = " --features verif-hooks" if "verif-hooks" in demo else ""
+rc, out = sh(f"cargo test --offline -p {crate}{feat} --test {tname} 2>&1 | tail -15")
 log["demo_on_unchanged"] = out[-600:]
-ok_unchanged = "test result: ok" in out
+ok_unchanged = "test result: ok" in out and " 0 passed" not in out
 rc, out = sh(f"git apply {sd}/patch.diff")
 log["apply"] = out
 rc, out = sh("cargo nextest run --workspace --no-fail-fast --offline 2>&1 | tail -12")
 log["suite_with_patch"] = out[-900:]
 fails = re.findall(r"FAIL \[[^\]]*\] (?:\([^)]*\) )?(\S+) (\S+)", out)
 other = sorted({f"{a} {b}" for a, b in fails if tname not in a and "test_golden_pcap_snapshots" not in b})
-demo_fails = any(tname in a for a, b in fails)
+rc, out2 = sh(f"cargo test --offline -p {crate}{feat} --test {tname} 2>&1 | tail -25")
+log["demo_with_patch"] = out2[-900:]
+demo_fails = "test result: FAILED" in out2 or "error: test failed" in out2
 os.remove(tpath)
 # our check on the patched tree
 rc, out = sh(f"./check {pid} --tier quick", cwd="/verif", extra={"VERIF_REPO": wt}, timeout=3000)
